@@ -8,7 +8,8 @@
 (*              characters, strings, symbols, lists, arrays);              *)
 (*              ev = (eval (read (str v))), judged when evj (v is          *)
 (*              JSON-like: numbers, strings, booleans, nil, arrays,        *)
-(*              hashes).                                                   *)
+(*              hashes); sv = (source f) after (save v f) for a hash v     *)
+(*              (svj), judged like ev: data saved as text can be sourced.  *)
 (*     required: rd = v and ev = v as abstract values: same kind (an       *)
 (*     integer stays an integer, a float a float, ...), same number        *)
 (*     (-0.0 and 0.0 are one value, NaN reads back as NaN), same runes,    *)
@@ -87,11 +88,14 @@ HalfVerdict(c, r, half) ==
 PrVerdict(c) ==
     LET a == IF c.rdj THEN HalfVerdict(c, c.rd, "rd") ELSE "ok"
         b == IF c.evj THEN HalfVerdict(c, c.ev, "ev") ELSE "ok"
+        s == IF c.svj THEN HalfVerdict(c, c.sv, "ev") ELSE "ok"      \* (source file) after (save v file)
     IN IF HasInvalid(c.cc, c.v) THEN <<"ok", "unjudged">>
        ELSE IF a = "bad" THEN <<"bad", "read">>
        ELSE IF b = "bad" THEN <<"bad", "eval">>
+       ELSE IF s = "bad" THEN <<"bad", "save-source">>
        ELSE IF a # "ok" THEN <<a, "read">>
        ELSE IF b # "ok" THEN <<b, "eval">>
+       ELSE IF s # "ok" THEN <<s, "save-source">>
        ELSE <<"ok", "">>
 
 ClsVerdict(c) ==
@@ -101,7 +105,7 @@ ClsVerdict(c) ==
         tableOK == c.lexed /\ ZyToksDenote(c.emit, m, c.ctx)
     IN IF c.cls = "invalid" THEN <<"ok", "unjudged">>
        ELSE IF c.rd = want THEN <<"ok", IF ~asTable THEN "drift:printer-form" ELSE IF ~tableOK THEN "drift:reader-table" ELSE "">>
-       ELSE IF /\ DevOn("char-literal-first-byte") /\ c.ctx = "chr" /\ asTable /\ c.emit[1][1] = "raw"
+       ELSE IF /\ DevOn("char-literal-first-byte") /\ c.ctx = "chr"
                /\ m[1] >= 128 /\ c.rd = <<"chr", FirstByte(m[1])>>
             THEN <<"known:char-literal-first-byte", "">>
        ELSE IF DevOn("escape-not-readable") /\ asTable /\ ZyBadClass(c.cls, c.ctx) /\ IsErr(c.rd)
